@@ -76,7 +76,7 @@ fn gen_set(rng: &mut Rng, small: bool) -> Set {
     for &s in &stamps {
         tag += 1;
         let ts = hts(s);
-        if rng.chance(0.25) {
+        if !recs.is_empty() && rng.chance(0.25) {
             recs.push(Rec { info: trusted(id, ts, tag), authentic: true, kind: "trusted", ts });
         } else {
             recs.push(Rec { info: signed(&key, id, ts, tag, rng.bool()), authentic: true, kind: "signed", ts });
@@ -94,6 +94,32 @@ fn gen_set(rng: &mut Rng, small: bool) -> Set {
         tag += 1;
         // Mostly newer than everything authentic, so that acceptance would be visible.
         let ts = if rng.chance(0.75) { hts((max_wall + 1 + rng.below(5), rng.below(3))) } else { hts((base + rng.below(3), 4 + rng.below(3))) };
+        // Half of the forgeries keep signature and timestamp of an authentic signed record and only
+        // alter its address *list* (what an intermediary relaying the record can do): the signed
+        // content then differs from what would be stored, so the record must be rejected whatever
+        // its timestamp is relative to the stored one.
+        if rng.bool() {
+            let sources: Vec<usize> = recs.iter().enumerate().filter(|(_, r)| r.kind == "signed").map(|(i, _)| i).collect();
+            // prefer the newest authentic record as source half of the time (acceptance would replace)
+            let src = if rng.bool() { *sources.iter().max_by_key(|&&i| recs[i].ts).unwrap() } else { *rng.pick(&sources) };
+            let TransportInfo::Authenticated(mut a) = recs[src].info.clone() else { unreachable!() };
+            let orig = a.addresses[0].clone();
+            let evil = addr_for(id, tag + 700, rng.bool());
+            let evil2 = addr_for(id, tag + 800, false);
+            let evil_other = addr_for(other.verifying_key(), tag + 700, false);
+            let kind = match rng.below(7) {
+                0 => { a.addresses = vec![evil, orig]; "addrlist-prepended" }
+                1 => { a.addresses = vec![evil_other, orig]; "addrlist-prepended-other-node" }
+                2 => { a.addresses = vec![orig, evil]; "addrlist-appended" }
+                3 => { a.addresses = vec![orig.clone(), orig]; "addrlist-duplicated" }
+                4 => { a.addresses = vec![evil, evil2, orig]; "addrlist-inserted-before" }
+                5 => { a.addresses = vec![evil, orig, evil2]; "addrlist-inserted-around" }
+                _ => { a.addresses = vec![orig.clone(), evil, orig]; "addrlist-replaced-copy-kept" }
+            };
+            let ts = a.timestamp;
+            recs.push(Rec { info: TransportInfo::Authenticated(a), authentic: false, kind, ts });
+            continue;
+        }
         let (info, kind) = match rng.below(5) {
             0 => (signed(&other, id, ts, tag, false), "forged-other-key-names-victim"),
             1 => (signed(&other, other.verifying_key(), ts, tag, false), "foreign-valid-record-of-other-node"),
@@ -242,7 +268,9 @@ pub fn run(args: &Args) {
          timestamps sharing wall parts, optionally one authentic record re-using a timestamp with \
          other content, 1..3 non-authentic records (signed by another key naming the victim, a valid \
          record of another node, tampered timestamp, tampered addresses, trusted naming another \
-         node; mostly newer than everything authentic). Orders: all permutations when <= 6 records, \
+         node — mostly newer than everything authentic; or an authentic signed record relayed with \
+         its signature and timestamp but an altered address list: address prepended / appended / \
+         inserted / duplicated / original kept next to a replacement). Orders: all permutations when <= 6 records, \
          else ascending, descending and random ones. Pure path NodeInfo::update_transports and actor \
          path AddressBook::insert_transport_info (a sample of the orders). Non-trivial = >= 3 \
          authentic records not in ascending order with a non-authentic one interleaved; distinct by \
@@ -251,7 +279,7 @@ pub fn run(args: &Args) {
     );
     let rt = tokio::runtime::Builder::new_current_thread().enable_all().build().unwrap();
     let book = rt.block_on(AddressBook::builder().spawn()).expect("address book spawns offline");
-    let sets = args.n(300, 5_000);
+    let sets = args.n(250, 5_000);
     let actor_every = 1u64; // every set also goes through the actor, with fewer orders
     let mut exhaustive_sets = 0u64;
     for s in 0..sets {
